@@ -4,6 +4,7 @@ FILE* uv::out = NULL;
 static uv::Cmd cmds[] = {
 	{"namematch", cmd_namematch},
 	{"trace", cmd_trace},
+	{"serial", cmd_serial},
 	{"json", cmd_json},
 	{"promela", cmd_promela},
 	{"lua", cmd_lua},
